@@ -18,3 +18,9 @@ claim("C23", "exploration",
       "Every array shape up to 4 / 3x3, every constant subscript and slice bound in a window around the valid range, loop ranges and index arithmetic, in 12 syntactic contexts (about 3 400 models) is compiled by the real backend: out-of-range must raise, in-range must compile and select exactly the reference elements (checked by value). The window is enumerated completely in both tiers; thorough adds expression and parameter subscripts.",
       "trusts the mflat reference for in-range value checks; 'any exception' counts as rejection; empty ranges are outside the property",
       "DESIGN.md section 4, C23")
+
+claim("C10", "exploration",
+      "reference-model monitor on generate(): classification, der_states pairing, order and outputs vs the generator's own knowledge",
+      "Thousands of generated models mixing every prefix (and prefix pair) with every elementary type, with der() applied directly, inside expressions, to nested component variables and only in initial equations; the seven variable lists, der_states and outputs of the real Model are compared with the classification the property's precedence gives.",
+      "declaration order is compared for single-class models only; String variables are only generated as parameters/constants",
+      "DESIGN.md section 4, C10")
